@@ -312,10 +312,19 @@ def check_guards(ck, tu):
                                     got = ("opaque",)
                                     if cp:
                                         a = kids(cp[0])
-                                        o1 = scan_offset(ge, a[0])
-                                        o2 = scan_offset(ge, a[1])
-                                        rs = [v for k_, v in ge.env.items()]
-                                        got = ("copy", o1, (o2 - o1) & M64 if o1 is not None and o2 is not None else None)
+                                        nm_ = cp[0]["callee"]["name"]
+                                        if nm_ == "copy":
+                                            o1 = scan_offset(ge, a[0])
+                                            o2 = scan_offset(ge, a[1])
+                                            ln_ = (o2 - o1) & M64 if o1 is not None and o2 is not None else None
+                                        else:
+                                            # copy_n(first, n, out) / memcpy(out, first, n)
+                                            o1 = scan_offset(ge, a[0] if nm_ == "copy_n" else a[1])
+                                            try:
+                                                ln_ = ge.ev(a[1] if nm_ == "copy_n" else a[2])
+                                            except Stop:
+                                                ln_ = None
+                                        got = ("copy", o1, ln_)
                                 else:
                                     ss = scan_start(ge, node)
                                     got = ("scan", ss[0], (S - 1 - ss[1]) & M64 if ss and ss[0] == "rev" else ss[1]) if ss else ("opaque",)
